@@ -150,7 +150,7 @@ def run_engine(ctx, want: str) -> None:
                           dict(program=_prog_of(programs, int(key.split(':', 1)[0])), passes=pname(key),
                                message=f"after {pname(key)} the IR breaks {names} (evaluated by TLC on the observed model)"))
         for key, clauses in app_res.items():
-            single = "+" not in pname(key)
+            single = "+" not in pname(key)      # a single pass; the pass manager (PM...) is a pass in its own right
             ctx._distinct.add("app|" + pname(key))
             for cl in clauses:
                 if cl == "Fixpoint" and not single:
@@ -169,6 +169,45 @@ def run_engine(ctx, want: str) -> None:
         ctx.assumptions = ["convergence is required of single passes (the statement says 'every built-in pass'), sequences are exempt",
                            "modified=False is compared against deterministic proto bytes"]
     ctx.exhaustive = False
+
+
+def functionalize_stage(ctx, cap: int) -> None:
+    """C13, last clause ("a functionalized pass never alters its input model"): functionalize() around every kind of
+    pass object over a sample of the TLC-generated corpus; the clause Functionalized of RewriteTrace.tla is evaluated by
+    TLC on every recorded application."""
+    res = _gen_corpus(ctx, 2)
+    programs = passrun.load_programs(res.out_path, cap, ctx.seed)
+    os.unlink(res.out_path)
+    apps = []
+    for pid, r in passrun.run_corpus(programs, ctx.seed, nproc=NCPU, func_only=True):
+        if r["bad_corpus"]:
+            raise MachineryError("a generated program could not be bound to a checker-valid model")
+        apps += [a for a in r["apps"] if a["a"]["funcTried"]]
+    if not apps:
+        raise MachineryError("functionalize stage: no application recorded")
+    tf = os.path.join(ctx.scratch, "func_trace.json")
+    with open(tf, "w") as f:
+        json.dump({"pairs": [], "apps": apps}, f)
+    tr = ctx.tlc(os.path.join(RW, "RewriteTrace.tla"), os.path.join(RW, "RewriteTrace.cfg"), tag="functionalize",
+                 env={"TRACE_FILE": tf}, workers=1, deadlock=False, timeout=3000)
+    if tr.errors or tr.returncode != 0:
+        raise MachineryError(f"RewriteTrace failed: {tr.errors[:2]}\n{tr.tail(25)}")
+    judged = 0
+    for rec in tr.records():
+        if isinstance(rec, list) and rec and rec[0] == "app":
+            judged += 1
+            if "Functionalized" in rec[2]:
+                key = rec[1]
+                a = next(x["a"] for x in apps if x["id"] == key)
+                pid = int(key.split(":", 1)[0])
+                ctx.violation(f"C13:functionalize:{key.split(':', 1)[1]}:" + ("input-altered" if not a["funcInputSame"] else "same-object"),
+                              dict(kind="functionalize", program=_prog_of(programs, pid), program_id=pid, passes=key.split(":", 1)[1],
+                                   application=a, message=f"functionalize({key.split(':', 1)[1]}) altered its input model or returned it: {a}"))
+    if judged != len(apps):
+        raise MachineryError(f"RewriteTrace judged {judged}/{len(apps)} functionalized applications")
+    ctx.validated += judged
+    ctx.extra["functionalized_applications_judged_by_tlc"] = judged
+    ctx._distinct.update("functionalize|" + a["id"].split(":", 1)[1] for a in apps)
 
 
 def _attr_cause(before: dict, after: dict) -> str:
